@@ -188,7 +188,9 @@ def _patch_task_state():
                    before=list(before), after=list(after), site=site,
                    forced=bool(forced), submit_num=self.submit_num,
                    manual=bool(self.is_manual_submit), timers=timers,
-                   flows=sorted(self.flow_nums))
+                   flows=sorted(self.flow_nums),
+                   stale_poll=sim.in_stale_poll(
+                       str(self.point), self.tdef.name, self.submit_num))
         return r
 
     tp.TaskProxy.state_reset = state_reset
@@ -243,12 +245,16 @@ def _make_vcluster_class():
             self.pending = [it for it in self.pending if not it['returned']]
             for it in done:
                 sim.on_return(it)
-                self._run_command_exit(
-                    it['ctx'], bad_hosts=it['bad_hosts'],
-                    callback=it['callback'],
-                    callback_args=it['callback_args'],
-                    callback_255=it['callback_255'],
-                    callback_255_args=it['callback_255_args'])
+                sim.returning = it
+                try:
+                    self._run_command_exit(
+                        it['ctx'], bad_hosts=it['bad_hosts'],
+                        callback=it['callback'],
+                        callback_args=it['callback_args'],
+                        callback_255=it['callback_255'],
+                        callback_255_args=it['callback_255_args'])
+                finally:
+                    sim.returning = None
             # 2. launch queued commands
             stopping = self._is_stopping()
             while self.queuings:
@@ -415,6 +421,7 @@ class Sim:
         self.hooks: List[Callable[[str, dict], None]] = []
         self.xtrig_results: Dict[str, Any] = {}
         self.poll_cmds = 0
+        self.returning: Optional[dict] = None   # command whose callback runs
         self.launch_listeners: List[Callable] = []
         self.completed_removed: set = set()
         self.shutdown_reason: Optional[BaseException] = None
@@ -504,11 +511,30 @@ class Sim:
             out = []
             dirs = [a for a in ctx.cmd if a.count('/') == 2 and a[0] != '/']
             polled = []
+            snap = {}
             for rel in dirs:
                 cycle, name, nn = rel.split('/')
                 job = self.jobs.get((cycle, name, int(nn)))
                 polled.append(rel)
+                # Harness constraint (same schedule domain as deliver()):
+                # the end of a job is not reported - by message or by poll -
+                # before the jobs-submit command that launched it has
+                # returned; that command is returned first (it was launched
+                # earlier, so its callback runs before this poll's).
+                if job is not None and (
+                        job.final is not None or job.killed
+                        or not job.submit_ok):
+                    for it2 in self.pending_cmds():
+                        if it2.get('kind') == 'jobs-submit' and \
+                                job.key in it2.get('jobs', ()):
+                            it2['returned'] = True
+                            self.ev('submit-return-forced', job=rel)
                 out.extend(self._poll_lines(rel, job, ts))
+                # what the job had done when this poll looked at it
+                snap[(cycle, name, int(nn))] = (
+                    None if job is None
+                    else (len(job.emitted), job.killed))
+            it['snap'] = snap
             self.ev('poll-launch', jobs=polled)
             ctx.out = '\n'.join(out) + '\n'
             ctx.ret_code = 0
@@ -543,7 +569,29 @@ class Sim:
         return True
 
     def on_return(self, it):
-        self.ev('return', cmd=it['id'], ckind=it.get('kind'))
+        extra = {}
+        if it.get('kind') == 'jobs-poll':
+            extra['stale'] = sorted(
+                f'{c}/{n}/{sn:02d}' for (c, n, sn) in it.get('snap', {})
+                if self._poll_is_stale(it, (c, n, sn)))
+        self.ev('return', cmd=it['id'], ckind=it.get('kind'), **extra)
+
+    def _poll_is_stale(self, it, key) -> bool:
+        """The job has emitted messages (or was killed) after the poll
+        command looked at it: the result describes a past state."""
+        snap = it.get('snap', {}).get(key)
+        job = self.jobs.get(key)
+        if snap is None or job is None:
+            return False
+        return (len(job.emitted), job.killed) != snap
+
+    def in_stale_poll(self, cycle, name, submit_num):
+        """None: no jobs-poll callback is running; else whether the poll
+        result being processed for this job is stale (see _poll_is_stale)."""
+        it = self.returning
+        if it is None or it.get('kind') != 'jobs-poll':
+            return None
+        return self._poll_is_stale(it, (cycle, name, submit_num))
 
     def _xtrig_result(self, sig, ctx):
         r = self.xtrig_results.get(sig)
@@ -858,7 +906,10 @@ class Sim:
                 sim.ev('pm', cycle=str(itask.point), name=itask.tdef.name,
                        msg=message, flag=flag, msg_submit_num=submit_num,
                        before=list(before), after=list(after), ret=bool(r),
-                       forced=bool(forced))
+                       forced=bool(forced),
+                       stale_poll=sim.in_stale_poll(
+                           str(itask.point), itask.tdef.name,
+                           itask.submit_num))
             return r
 
         tem.process_message = process_message
